@@ -454,10 +454,17 @@ structure Exec where
   threads : Nat
   deriving Repr, DecidableEq, Inhabited
 
-/-- thread-count normalisation of `run_bench_entry` -/
+/-- `Vec::dedup`: remove consecutive repeats -/
+def dedupAdj : List Nat → List Nat
+  | [] => []
+  | [x] => [x]
+  | x :: y :: r => if x = y then dedupAdj (y :: r) else x :: dedupAdj (y :: r)
+
+/-- thread-count normalisation of `run_bench_entry`: `0 ↦ available parallelism`, sort, dedup,
+    empty ↦ one thread -/
 def threadCounts (th : Option (List Nat)) (par : Nat) : List Nat :=
   let l := ((th.getD []).map fun n => if n = 0 then par else n).mergeSort (· ≤ ·)
-  let l := l.eraseDups
+  let l := dedupAdj l
   if l.isEmpty then [1] else l
 
 def ceilDiv (a b : Nat) : Nat := (a + b - 1) / b
@@ -486,27 +493,39 @@ structure W where
 
 def lineCount (s : String) : Nat := (s.toList.filter (· = '\n')).length
 
+/-- the loop over thread counts inside `run_bench` -/
+def runThreads (cfg : Cfg) (o : Opts) (slot : Nat) (arg : Option String) (branches isLast : Bool) :
+    List Nat → P → List Exec → P × List Exec
+  | [], p, ex => (p, ex)
+  | t :: ts, p, ex =>
+    let lastT := if branches then ts.isEmpty else isLast
+    let p := if branches then p.startLeaf s!"t={t}" lastT else p
+    let (calls, smp, it) := callsOf cfg.action o t
+    let p := if cfg.action = .bench then p.finishLeaf lastT smp it (counterUnits o) else p.finishEmptyLeaf
+    runThreads cfg o slot arg branches isLast ts p (⟨slot, arg, calls, if calls = 0 then 0 else t⟩ :: ex)
+
+/-- the `run_bench` closure of `run_bench_entry`: one `Bencher` per thread count -/
 def runBench (cfg : Cfg) (o : Opts) (w : W) (slot : Nat) (arg : Option String) (name : String) (isLast : Bool)
     (path : String) : W :=
   let tcs := threadCounts o.th cfg.parallelism
   let branches := tcs.length > 1
   let labelLine := lineCount w.p.out
   let p := if branches then w.p.startParent name isLast else w.p.startLeaf name isLast
-  let n := tcs.length
-  let (p, ex) := (List.range n).foldl (fun (acc : P × List Exec) i =>
-    let (p, ex) := acc
-    let t := tcs.getD i 1
-    let lastT := if branches then i = n - 1 else isLast
-    let p := if branches then p.startLeaf s!"t={t}" lastT else p
-    let (calls, smp, it) := callsOf cfg.action o t
-    let p := if cfg.action = .bench then p.finishLeaf lastT smp it (counterUnits o) else p.finishEmptyLeaf
-    (p, ⟨slot, arg, calls, if calls = 0 then 0 else t⟩ :: ex)) (p, w.execs)
-  let p := if branches then p.finishParent else p
-  { p := p, execs := ex, labels := List.replicate n labelLine ++ w.labels, cases := path :: w.cases }
+  let r := runThreads cfg o slot arg branches isLast tcs p w.execs
+  let p := if branches then r.1.finishParent else r.1
+  { p := p, execs := r.2, labels := List.replicate tcs.length labelLine ++ w.labels, cases := path :: w.cases }
 
 /-- "user runtime options override all other options" -/
 def effOpts (cfg : Cfg) (entryOpts : Option Opts) : Opts :=
   match entryOpts with | none => cfg.runtime | some eo => cfg.runtime.overwrite eo
+
+/-- the loop over the surviving argument indices: the label printed and the value handed to the
+    function are both `names[i]`, `i` being the index recovered from the name pointer -/
+def runArgs (cfg : Cfg) (o : Opts) (slot : Nat) (names : List String) (full : String) : List Nat → W → W
+  | [], w => w
+  | i :: rest, w =>
+    let nm := names.getD i ""
+    runArgs cfg o slot names full rest (runBench cfg o w slot (some nm) nm rest.isEmpty (full ++ "::" ++ nm))
 
 /-- `run_bench_entry` -/
 def runBenchEntry (cfg : Cfg) (w : W) (e : Bench) (args : Option (List Nat)) (entryOpts : Option Opts) (isLast : Bool)
@@ -517,13 +536,8 @@ def runBenchEntry (cfg : Cfg) (w : W) (e : Bench) (args : Option (List Nat)) (en
   match e.args with
   | none => runBench cfg o w e.slot none e.dispName isLast full
   | some names =>
-    let is := args.getD []
     let w := { w with p := w.p.startParent e.dispName isLast }
-    let n := is.length
-    let w := (List.range n).foldl (fun w k =>
-      let i := is.getD k 0
-      let nm := names.getD i ""
-      runBench cfg o w e.slot (some nm) nm (k = n - 1) (full ++ "::" ++ nm)) w
+    let w := runArgs cfg o e.slot names full (args.getD []) w
     { w with p := w.p.finishParent }
 
 /-- the option descent shared by `run_tree` and (repaired) `run_tree_list`: the child's options
